@@ -57,7 +57,7 @@ def mc(ctx):
                           invariants=["TypeOK", "OrderCannotMatter", "AdmitShape", "NeverRegistered"])
     r = ctx.tlc("AuthJwt", cfg, constants=K, name="AuthJwt-mc", workers=W, coverage=True)
     ctx.check_coverage(r, ["Request", "Advance"])
-    K = dict(MaxTamper=2)
+    K = dict(MaxTamper=(1 if ctx.quick else 2), Servers=SERVERS)
     cfg = core.render_cfg(spec="Spec", constants=K, invariants=["AnyTamperDenied", "HonestPasses", "OutsideToleranceDenied", "TransportIrrelevant", "ServerIrrelevant"])
     ctx.tlc("AuthSig", cfg, constants=K, name="AuthSig-mc", workers=W)
     K = dict(MaxCalls=3, MaxEnv=2, Kinds='{"unary","stream"}', CallSet="AllCalls")
@@ -87,7 +87,7 @@ def run(ctx):
         ("jwt2", "AuthJwtGen", dict(Tokens="CoreTokens", Cfgs=CFGS, Servers=SERVERS, MaxReq=2), api),
         ("jwt3", "AuthJwtGen", dict(Tokens=("FewTokens" if q else "CoreTokens"), Cfgs=CFGS,
                                     Servers=('{"default","chain"}' if q else SERVERS), MaxReq=3), api),
-        ("sig", "AuthSigGen", dict(MaxTamper=(1 if q else 2)), api),
+        ("sig", "AuthSigGen", dict(MaxTamper=(1 if q else 2), Servers=('{"default","chain"}' if q else SERVERS)), api),
         # single calls over the full metadata product, then sequences with the store changing in between
         ("rpc1", "AuthRpcGen", dict(MaxCalls=1, MaxEnv=0, Kinds='{"unary","stream"}', CallSet="AllCalls"), rpc),
         ("rpc2", "AuthRpcGen", dict(MaxCalls=2, MaxEnv=1, Kinds='{"unary","stream"}', CallSet="CoreCalls"), rpc),
